@@ -2015,9 +2015,7 @@ func (r stack) traverse(indices ...int) (slice any, ok, done bool) {
 				// values. We'll go as deep as possible, provided each nesting
 				// instance is a Stack/Stack alias, or Condition/Condition alias
 				// containing a Stack/Stack alias value.
-				if slice, ok, done = r.traverseAssertionHandler(instance, i, indices...); !done {
-					continue
-				}
+				slice, ok, done = r.traverseAssertionHandler(instance, i, indices...)
 			}
 			break
 		}
